@@ -4,7 +4,7 @@ CONSTANTS
  MaxOps = 2
  W = 16
  HT <- HTGauge
- Alphabet <- AlphaGaugeCas
+ Alphabet <- AlphaGaugeCasZ
  FineCas = TRUE
  Retry = TRUE
 INVARIANTS TypeOK IncOnlySum AbsMonotone AbsFloor NoLostUpdate SetExact ExactlyN 
